@@ -65,23 +65,38 @@ pub fn find_case(rng: &mut gen::R, kinds: &[Kind], ev: &Evaluator, rep: &mut Rep
     Some(Case { root: p, recorded, m1, n2 })
 }
 
-pub fn scenario_for(rng: &mut gen::R, c: &Case, depth: usize, workers: usize) -> Scenario {
+/// `natural`: the recorded position enters the history the way it does in a game, by having been
+/// a search root on the same memory (so the table also knows it); otherwise through the hook.
+pub fn scenario_for(rng: &mut gen::R, c: &Case, depth: usize, workers: usize, natural: bool) -> Scenario {
     let mut s = Step::new(&c.root.fen(), depth, workers, rng.gen());
-    s.record = vec![c.recorded.fen()];
     if workers >= 2 && rng.gen_bool(0.3) {
         s.delay = Some((rng.gen(), 2048));
     }
-    Scenario { tables: 8, buckets: 1024, hasher_seed: rng.gen(), steps: vec![s] }
+    let mut steps = vec![];
+    if natural {
+        steps.push(Step::new(&c.recorded.fen(), rng.gen_range(2..=5), *[1usize, 1, 2, 4].choose(rng).unwrap(), rng.gen()));
+    } else {
+        s.record = vec![c.recorded.fen()];
+    }
+    steps.push(s);
+    Scenario { tables: 8, buckets: 1024, hasher_seed: rng.gen(), steps }
 }
 
 pub fn run_and_judge(sc: &Scenario, ev: &Evaluator, n2: Option<usize>, rep: &mut Report) -> bool {
-    let step = &sc.steps[0];
-    let root = Pos::from_fen(&step.fen).unwrap();
-    let recorded = Pos::from_fen(&step.record[0]).unwrap();
+    let last = sc.steps.len() - 1;
+    let natural = last > 0;
+    let root = Pos::from_fen(&sc.steps[last].fen).unwrap();
+    let rec_fen = if natural { sc.steps[0].fen.clone() } else { sc.steps[last].record[0].clone() };
+    let recorded = Pos::from_fen(&rec_fen).unwrap();
     let mut ok = true;
-    sc.run(ev, |_, step, res| {
+    sc.run(ev, |i, step, res| {
+        if i < last {
+            // the earlier search of the recorded position only prepares the memory
+            return res.out.panic.is_none();
+        }
+        rep.count(if natural { "searches_recorded_by_an_earlier_search" } else { "searches_recorded_through_the_hook" }, 1);
         let replay = json!({"scenario": sc.to_json()});
-        let sig = |k: &str| format!("{}|{}|rec={}|d{}|w{}", k, step.fen, step.record[0], step.depth.unwrap_or(0), step.workers.unwrap_or(0));
+        let sig = |k: &str| format!("{}|{}|rec={}|{}|d{}|w{}", k, step.fen, rec_fen, if natural { "searched-before" } else { "hook" }, step.depth.unwrap_or(0), step.workers.unwrap_or(0));
         rep.eval(1);
         rep.count("searches", 1);
         rep.count(&format!("workers_{}", step.workers.unwrap_or(0)), 1);
@@ -94,7 +109,7 @@ pub fn run_and_judge(sc: &Scenario, ev: &Evaluator, n2: Option<usize>, rep: &mut
             return false;
         };
         if *e < Evaluation::POS_INF {
-            rep.violation("mate-lost-to-history", &sig("mate-lost-to-history"), &format!("{} has a forced mate in {:?} plies that avoids the recorded position {}, but the depth-{} search reports {:?} (line {})", step.fen, n2, step.record[0], step.depth.unwrap_or(0), e, srch::lan_line(line)), replay);
+            rep.violation("mate-lost-to-history", &sig("mate-lost-to-history"), &format!("{} has a forced mate in {:?} plies that avoids the recorded position {}, but the depth-{} search reports {:?} (line {})", step.fen, n2, rec_fen, step.depth.unwrap_or(0), e, srch::lan_line(line)), replay);
             ok = false;
             return false;
         }
@@ -105,7 +120,7 @@ pub fn run_and_judge(sc: &Scenario, ev: &Evaluator, n2: Option<usize>, rep: &mut
         }
         let c = root.make(&om);
         if c.b == recorded.b && c.wtm == recorded.wtm {
-            rep.violation("repeating-move-chosen", &sig("repeating-move-chosen"), &format!("first move {} re-enters the recorded position {} although a mate score {:?} is reported", Pos::lan(&om), step.record[0], e), replay);
+            rep.violation("repeating-move-chosen", &sig("repeating-move-chosen"), &format!("first move {} re-enters the recorded position {} ({}) although a mate score {:?} is reported", Pos::lan(&om), rec_fen, if natural { "a root of an earlier search on this memory" } else { "recorded through the hook" }, e), replay);
             ok = false;
             return false;
         }
@@ -162,7 +177,8 @@ pub fn run(ctx: &Ctx, rep: &mut Report) {
         }
         for d in [c.n2, c.n2 + 1, c.n2 + 2] {
             let w = *workers.choose(&mut rng).unwrap();
-            let sc = scenario_for(&mut rng, &c, d, w);
+            let natural = rng.gen_bool(0.5);
+            let sc = scenario_for(&mut rng, &c, d, w, natural);
             run_and_judge(&sc, &ev, Some(c.n2), rep);
             n = n.saturating_sub(1);
         }
